@@ -36,8 +36,26 @@ def ids(placement, loc):
     return ["%s%d" % (loc[:2].lower(), k) for k, l in enumerate(placement) if l == loc]
 
 
+EXTENDABLE = {"SCALAR": "scalar Tag", "ENUM": "enum E", "INPUT_OBJECT": "input I", "INTERFACE": "interface N", "OBJECT": "type O", "UNION": "union U"}
+
+
 def sdl_for(p):
-    d = lambda loc: dirs_text(p, loc)  # noqa: E731
+    # placements of odd size: at the type-level locations only the first directive stays on the definition, the others are added by an
+    # `extend` block (declaration order: definition first, then the extension)
+    split = len(p) % 2 == 1
+    exts = []
+
+    def d(loc):
+        text = dirs_text(p, loc)
+        if split and loc in EXTENDABLE and text.count(" @t") >= 2:
+            cut = text.index(" @t", 1)
+            exts.append("extend %s%s" % (EXTENDABLE[loc], text[cut:]))
+            return text[:cut]
+        return text
+    return _sdl_body(d) + "\n".join(exts) + "\n"
+
+
+def _sdl_body(d):
     return """
 %s
 scalar Tag%s
